@@ -847,7 +847,16 @@ func scanGlobalWrites(info *types.Info, files []*ast.File, report func(fname, wh
 										_, ptrRecv := sig.Recv().Type().(*types.Pointer)
 										foreign := fn.Pkg() == nil || info.Defs[fd.Name] == nil || fn.Pkg() != info.Defs[fd.Name].Pkg()
 										readOnly := map[string]bool{"Load": true, "Range": true, "Len": true, "String": true, "Bytes": true, "Cap": true}
-										if ptrRecv && foreign && !readOnly[fn.Name()] {
+										// a sync.Pool hands out interchangeable scratch storage: which
+										// buffer a caller gets is not observable as long as it does not
+										// read what an earlier user left in it (not decided here)
+										isPool := false
+										if nt, okN := sig.Recv().Type().(*types.Pointer); okN {
+											if named, okN2 := nt.Elem().(*types.Named); okN2 && named.Obj().Pkg() != nil && named.Obj().Pkg().Path() == "sync" && named.Obj().Name() == "Pool" {
+												isPool = true
+											}
+										}
+										if ptrRecv && foreign && !readOnly[fn.Name()] && !isPool {
 											report(fname, "calls "+fn.Name()+" on package-level "+g, "a method with a pointer receiver on a package-level value of another package's type (a cache, a pool, a buffer): what this call returns, or a later one, depends on the calls that came before", x.Pos())
 										}
 									}
